@@ -189,6 +189,26 @@ def main():
           rep.violation(f"dropin-{kind}-{i}", f"{desc}: layer output differs from the documented pooling computation", {"layer": desc})
         else:
           n_eq += 1
+        if kind != "avgpool":
+          # the SAME layer instance on another resolution: a global pooling layer has no weights and accepts any spatial size, and
+          # its divisor is the area of the tensor it is given NOW
+          h2, w2 = hh + 1 + (i % 3), ww + 2
+          x2 = rng.normal(0, 1, size=((2, x.shape[1], h2, w2) if cf else (2, h2, w2, x.shape[-1]))).astype(np.float32)
+          try:
+            y2 = ql(tf.constant(x2)).numpy()
+            if avq:
+              want2 = tf.reduce_sum(tf.constant(x2), axis=sp) * tf.cast(get_quantizer(avq)(1.0 / (h2 * w2)), tf.float32)
+            else:
+              want2 = L.GlobalAveragePooling2D(data_format=dfmt)(tf.constant(x2))
+            if aq:
+              want2 = get_quantizer(aq)(want2)
+            rep.count(("second-resolution",) + tuple(sorted((k, str(v)) for k, v in desc.items())))
+            if not eq(y2, want2.numpy(), 1e-6):
+              rep.violation(f"dropin-{kind}-{i}-second-resolution", f"{desc}: the same layer instance applied to a {h2}x{w2} tensor after a {hh}x{ww} one "
+                            "differs from the documented pooling computation", {"layer": desc, "first": (hh, ww), "second": (h2, w2)})
+          except Exception as e:  # pylint: disable=broad-except
+            rep.violation(f"dropin-{kind}-{i}-second-resolution-raises", f"{desc}: the same layer instance raised {type(e).__name__} on a second resolution: {str(e)[:160]}",
+                          {"layer": desc})
         continue
       xt = tf.constant(x)
       y0 = ql(xt)        # builds
